@@ -134,7 +134,12 @@ class Run:
 
     def close_file(self, fs):
         if fs.real is not None:
-            fs.real.close()
+            if ((self.step or 0) + len(self.keep)) % 3 == 0:
+                # leaving a "with nixio.File.open(...) as f:" block (a deterministic third of the closes)
+                fs.real.__enter__().__exit__(None, None, None)
+                self.stats["closed_by_context_manager"] += 1
+            else:
+                fs.real.close()
             fs.real = None
         self.drop_handles(fs)
 
@@ -152,6 +157,16 @@ class Run:
     def remember(self, m, h, via_link=False):
         self.pool.setdefault(m.uid, []).append(h)
         self.keep.append(h)          # handles stay alive for the whole run: their id() is then unique
+        if not via_link:
+            # a handle created or looked up through a link-resolved handle of its parent (or of any
+            # ancestor) lives on the same link path and goes stale with it (known finding F14b)
+            p, hops = getattr(h, "_parent", None), 0
+            while p is not None and hops < 32:
+                if id(p) in self.link_handles:
+                    via_link = True
+                    self.stats["handle_link_derived"] += 1
+                    break
+                p, hops = getattr(p, "_parent", None), hops + 1
         if via_link:
             self.link_handles.add(id(h))
 
